@@ -1,11 +1,12 @@
-// instr inserts cooperative yield points into a copy of storage/pebble/storage.go.
+// instr inserts cooperative yield points into a copy of a source file of the repository.
 //
-//	instr <in.go> <out.go>
+//	instr [-recv T1,T2] [-hook Name] <in.go> <out.go>
 //
-// Before every statement in the body of every method of *ContentStorage (recursively through
-// blocks, if/for/switch/select bodies, but not inside function literals) it inserts
-// `VerifYield("<func>:<line>")`. Insertion is structural, so it keeps working when the file
-// is edited. The companion file verif_yield.go declares the hook variable.
+// Before every statement in the body of every method of *T (default *ContentStorage; recursively
+// through blocks, if/for bodies and the clauses of switch/select, but not inside function literals)
+// it inserts `Name("<func>:<line>")` (default VerifYield). Insertion is structural, so it keeps
+// working when the file is edited. The hook variable is declared by a build-tag-guarded file of the
+// repository (storage/pebble) or by a file the build overlay adds to the package (portalwire).
 package main
 
 import (
@@ -15,15 +16,31 @@ import (
 	"go/parser"
 	"go/token"
 	"os"
+	"strings"
 )
 
+var hookName = "VerifYield"
+
 func main() {
-	if len(os.Args) != 3 {
-		fmt.Fprintln(os.Stderr, "usage: instr in.go out.go")
+	recv := map[string]bool{"ContentStorage": true}
+	args := os.Args[1:]
+	for len(args) >= 2 && (args[0] == "-recv" || args[0] == "-hook") {
+		if args[0] == "-recv" {
+			recv = map[string]bool{}
+			for _, t := range strings.Split(args[1], ",") {
+				recv[t] = true
+			}
+		} else {
+			hookName = args[1]
+		}
+		args = args[2:]
+	}
+	if len(args) != 2 {
+		fmt.Fprintln(os.Stderr, "usage: instr [-recv T1,T2] [-hook Name] in.go out.go")
 		os.Exit(2)
 	}
 	fset := token.NewFileSet()
-	f, err := parser.ParseFile(fset, os.Args[1], nil, parser.ParseComments)
+	f, err := parser.ParseFile(fset, args[0], nil, parser.ParseComments)
 	if err != nil {
 		fmt.Fprintln(os.Stderr, "instr:", err)
 		os.Exit(2)
@@ -39,16 +56,16 @@ func main() {
 			continue
 		}
 		id, ok := st.X.(*ast.Ident)
-		if !ok || id.Name != "ContentStorage" {
+		if !ok || !recv[id.Name] {
 			continue
 		}
 		n += instrBlock(fset, fd.Name.Name, fd.Body)
 	}
 	if n == 0 {
-		fmt.Fprintln(os.Stderr, "instr: no yield point inserted (no *ContentStorage methods found)")
+		fmt.Fprintln(os.Stderr, "instr: no yield point inserted (no methods of the given receiver types found)")
 		os.Exit(2)
 	}
-	out, err := os.Create(os.Args[2])
+	out, err := os.Create(args[1])
 	if err != nil {
 		fmt.Fprintln(os.Stderr, "instr:", err)
 		os.Exit(2)
@@ -65,7 +82,7 @@ func main() {
 
 func yieldStmt(site string) ast.Stmt {
 	return &ast.ExprStmt{X: &ast.CallExpr{
-		Fun:  ast.NewIdent("VerifYield"),
+		Fun:  ast.NewIdent(hookName),
 		Args: []ast.Expr{&ast.BasicLit{Kind: token.STRING, Value: fmt.Sprintf("%q", site)}},
 	}}
 }
@@ -87,6 +104,18 @@ func instrBlock(fset *token.FileSet, fn string, b *ast.BlockStmt) int {
 	return n
 }
 
+// instrClauses: the body of a switch / select is a list of clauses; nothing may stand between them.
+func instrClauses(fset *token.FileSet, fn string, b *ast.BlockStmt) int {
+	n := 0
+	if b == nil {
+		return 0
+	}
+	for _, c := range b.List {
+		n += instrStmt(fset, fn, c)
+	}
+	return n
+}
+
 func instrStmt(fset *token.FileSet, fn string, s ast.Stmt) int {
 	n := 0
 	switch x := s.(type) {
@@ -102,11 +131,11 @@ func instrStmt(fset *token.FileSet, fn string, s ast.Stmt) int {
 	case *ast.RangeStmt:
 		n += instrBlock(fset, fn, x.Body)
 	case *ast.SwitchStmt:
-		n += instrBlock(fset, fn, x.Body)
+		n += instrClauses(fset, fn, x.Body)
 	case *ast.TypeSwitchStmt:
-		n += instrBlock(fset, fn, x.Body)
+		n += instrClauses(fset, fn, x.Body)
 	case *ast.SelectStmt:
-		n += instrBlock(fset, fn, x.Body)
+		n += instrClauses(fset, fn, x.Body)
 	case *ast.CaseClause:
 		bb := &ast.BlockStmt{List: x.Body}
 		n += instrBlock(fset, fn, bb)
